@@ -246,7 +246,21 @@ def edge_records(graph):
 def ref_edge(rec, lo, hi):
     s, d = rec["src"], rec["dst"]
     return {"src": s, "dst": d, "rel": rec.get("rel", "coact"), "weight": ref_weight(rec.get("weight", MISSING), lo, hi),
-            "updated_at": rec.get("updated_at"), "attrs": rec.get("attrs", {}), "id": canon_key(s, d)}
+            "updated_at": rec.get("updated_at"), "attrs": ref_attrs(rec.get("attrs", {})), "id": canon_key(s, d)}
+
+
+def ref_attrs(a):
+    """Edge attrs as the snapshot writer documents them (fix 463dceb): a mapping whose `coact` counter is an int
+    (non-numeric -> 0); anything that is not a mapping becomes {}."""
+    if not isinstance(a, dict):
+        return {}
+    out = dict(a)
+    if "coact" in out:
+        try:
+            out["coact"] = int(out["coact"])
+        except Exception:
+            out["coact"] = 0
+    return out
 
 
 def ref_gel(graph, lo, hi):
@@ -446,6 +460,7 @@ def graph_strategy(lo, hi, max_edges):
     st = _st()
     wts = weights_strategy(lo, hi)
     attrs = st.one_of(st.sampled_from([{}, {}, {"coact": 3, "last_seen_turn": None}, {"coact": 0, "last_seen_turn": 7},
+                                       {"coact": 2.0, "last_seen_turn": 1}, {"coact": "5"}, {"coact": True}, {"coact": None}, {"coact": 2.7},
                                        {"é": [1, 2.5, None]}, {"x": math.nan}, {"kind": "concept"}, "__missing__"]),
                       st.dictionaries(st.sampled_from(["k", "é", ""]), json_leaf(), max_size=2))
     updated = st.sampled_from([None, None, "2025-01-01T00:00:00Z", 5, "", "__missing__"])
